@@ -129,6 +129,30 @@ theorem vincinv_utm_def (zone1 east1 north1 zone2 east2 north2 : ℝ) (hemi : St
     vincinv_utm zone1 east1 north1 zone2 east2 north2 hemi ell
       = gridInverse zone1 east1 north1 zone2 east2 north2 hemi ell := rfl
 
+/-- explicit successful form: `grid_dist = ell_dist · lsf`, `grid1to2 = az12 + conv(pt1)`,
+`grid2to1 = az21 + conv(pt2)`, each convergence being the 4th component of that point's own
+`grid2geo` result (its own zone) -/
+theorem vincinv_utm_ok (zone1 east1 north1 zone2 east2 north2 : ℝ) (hemi : String)
+    (ell : Ellipsoid) (pt1 pt2 : Geo) (lsf : ℝ)
+    (h1 : grid2geo zone1 east1 north1 hemi ell utm = .ok pt1)
+    (h2 : grid2geo zone2 east2 north2 hemi ell utm = .ok pt2)
+    (hl : line_sf zone1 east1 north1 zone2 east2 north2 hemi ell utm = .ok lsf) :
+    vincinv_utm zone1 east1 north1 zone2 east2 north2 hemi ell
+      = .ok ((vincinv pt1.1 pt1.2.1 pt2.1 pt2.2.1 ell).1 * lsf,
+             (vincinv pt1.1 pt1.2.1 pt2.1 pt2.2.1 ell).2.1 + pt1.2.2.2,
+             (vincinv pt1.1 pt1.2.1 pt2.1 pt2.2.1 ell).2.2 + pt2.2.2.2, lsf) := by
+  rw [vincinv_utm_def]
+  unfold gridInverse
+  rw [h1, h2]
+  show (do
+      let lsf ← line_sf zone1 east1 north1 zone2 east2 north2 hemi ell utm
+      (pure ((vincinv pt1.1 pt1.2.1 pt2.1 pt2.2.1 ell).1 * lsf,
+        (vincinv pt1.1 pt1.2.1 pt2.1 pt2.2.1 ell).2.1 + pt1.2.2.2,
+        (vincinv pt1.1 pt1.2.1 pt2.1 pt2.2.1 ell).2.2 + pt2.2.2.2, lsf)
+        : Except PyErr (ℝ × ℝ × ℝ × ℝ))) = _
+  rw [hl]
+  rfl
+
 /-! ## 2./3. `line_sf`, `rho`, `nu` -/
 
 theorem line_sf_def (zone1 east1 north1 zone2 east2 north2 : ℝ) (hemi : String) (ell : Ellipsoid)
@@ -267,6 +291,354 @@ theorem lsfCore_point (k0 rsq E : ℝ) (hr : rsq ≠ 0) :
   field_simp
   ring
 
+/-! ### the same facts about the generated `line_sf` -/
+
+/-- `line_sf_formula` in terms of `lsfCore`/`rSq` -/
+theorem line_sf_ok (zone east1 north1 east2 north2 : ℝ) (hemi : String) (ell : Ellipsoid)
+    (prj : Projection) (g1 g2 : Geo)
+    (h1 : grid2geo zone east1 north1 hemi ell utm = .ok g1)
+    (h2 : grid2geo zone east2 north2 hemi ell utm = .ok g2) :
+    line_sf zone east1 north1 zone east2 north2 hemi ell prj
+      = .ok (lsfCore prj.cmscale (rSq ((g1.1 + g2.1) / 2) ell prj)
+          (east1 - prj.falseeast) (east2 - prj.falseeast)) :=
+  line_sf_formula zone east1 north1 east2 north2 hemi ell prj g1 g2 h1 h2
+
+/-- **line_sf_symmetric**: exchanging the two stations does not change the line scale factor -/
+theorem line_sf_symmetric (zone east1 north1 east2 north2 : ℝ) (hemi : String) (ell : Ellipsoid)
+    (prj : Projection) (g1 g2 : Geo)
+    (h1 : grid2geo zone east1 north1 hemi ell utm = .ok g1)
+    (h2 : grid2geo zone east2 north2 hemi ell utm = .ok g2) :
+    line_sf zone east1 north1 zone east2 north2 hemi ell prj
+      = line_sf zone east2 north2 zone east1 north1 hemi ell prj := by
+  rw [line_sf_ok _ _ _ _ _ _ _ _ g1 g2 h1 h2, line_sf_ok _ _ _ _ _ _ _ _ g2 g1 h2 h1,
+    lsfCore_symmetric, add_comm g1.1 g2.1]
+
+/-! ### `rho`, `nu` -/
+
+/-- **rho_nu_def**: `ρ = a(1−e²)/(1−e² sin²φ)^{3/2}` (a real power, the code's `** 1.5`) and
+`ν = a/√(1−e² sin²φ)`, with `a`, `e²` the fields of the ellipsoid ARGUMENT and `φ` in degrees -/
+theorem rho_nu_def (lat : ℝ) (ell : Ellipsoid) :
+    rho lat ell = ell.semimaj * (1 - ell.ecc1sq)
+        / (1 - ell.ecc1sq * Real.sin (lat * (Real.pi / 180)) ^ 2) ^ ((3 : ℝ) / 2)
+    ∧ nu lat ell = ell.semimaj / Real.sqrt (1 - ell.ecc1sq * Real.sin (lat * (Real.pi / 180)) ^ 2) := by
+  have h : (dec 15 1 : ℝ) = 3 / 2 := by simp only [dec_def]; norm_num
+  refine ⟨?_, rfl⟩
+  unfold rho
+  rw [h]
+
+theorem w_pos (lat : ℝ) (ell : Ellipsoid) (he0 : 0 ≤ ell.ecc1sq) (he1 : ell.ecc1sq < 1) :
+    0 < 1 - ell.ecc1sq * Real.sin (lat * (Real.pi / 180)) ^ 2 := by
+  have hs : Real.sin (lat * (Real.pi / 180)) ^ 2 ≤ 1 := Real.sin_sq_le_one _
+  have hs0 : 0 ≤ Real.sin (lat * (Real.pi / 180)) ^ 2 := sq_nonneg _
+  nlinarith
+
+theorem rho_pos (lat : ℝ) (ell : Ellipsoid) (ha : 0 < ell.semimaj) (he0 : 0 ≤ ell.ecc1sq)
+    (he1 : ell.ecc1sq < 1) : 0 < rho lat ell := by
+  rw [(rho_nu_def lat ell).1]
+  have hw := w_pos lat ell he0 he1
+  have : 0 < (1 - ell.ecc1sq * Real.sin (lat * (Real.pi / 180)) ^ 2) ^ ((3 : ℝ) / 2) :=
+    Real.rpow_pos_of_pos hw _
+  have h1 : 0 < 1 - ell.ecc1sq := by linarith
+  positivity
+
+theorem nu_pos (lat : ℝ) (ell : Ellipsoid) (ha : 0 < ell.semimaj) (he0 : 0 ≤ ell.ecc1sq)
+    (he1 : ell.ecc1sq < 1) : 0 < nu lat ell := by
+  rw [(rho_nu_def lat ell).2]
+  have hw := w_pos lat ell he0 he1
+  have : 0 < Real.sqrt (1 - ell.ecc1sq * Real.sin (lat * (Real.pi / 180)) ^ 2) :=
+    Real.sqrt_pos.2 hw
+  positivity
+
+/-- `r² > 0` for a proper ellipsoid and a non-zero central scale factor -/
+theorem rSq_pos (lat : ℝ) (ell : Ellipsoid) (prj : Projection) (ha : 0 < ell.semimaj)
+    (he0 : 0 ≤ ell.ecc1sq) (he1 : ell.ecc1sq < 1) (hk : prj.cmscale ≠ 0) :
+    0 < rSq lat ell prj := by
+  unfold rSq
+  have h1 := rho_pos lat ell ha he0 he1
+  have h2 := nu_pos lat ell ha he0 he1
+  positivity
+
+/-- the hypotheses hold for the library's default ellipsoid and projection -/
+theorem grs80_utm_ok :
+    0 < grs80.semimaj ∧ 0 ≤ grs80.ecc1sq ∧ grs80.ecc1sq < 1 ∧ 0 < utm.cmscale := by
+  simp only [grs80, utm, Ellipsoid.init, Projection.init, dec, pyfloat]
+  norm_num
+
+/-- **line_sf_ge_k0**: the line scale factor is at least the central scale factor -/
+theorem line_sf_ge_k0 (zone east1 north1 east2 north2 : ℝ) (hemi : String) (ell : Ellipsoid)
+    (prj : Projection) (g1 g2 : Geo)
+    (h1 : grid2geo zone east1 north1 hemi ell utm = .ok g1)
+    (h2 : grid2geo zone east2 north2 hemi ell utm = .ok g2)
+    (ha : 0 < ell.semimaj) (he0 : 0 ≤ ell.ecc1sq) (he1 : ell.ecc1sq < 1) (hk : 0 < prj.cmscale) :
+    ∃ k, line_sf zone east1 north1 zone east2 north2 hemi ell prj = .ok k ∧ prj.cmscale ≤ k :=
+  ⟨_, line_sf_ok _ _ _ _ _ _ _ _ g1 g2 h1 h2,
+    lsfCore_ge_k0 _ _ _ _ hk.le (rSq_pos _ ell prj ha he0 he1 hk.ne')⟩
+
+/-- **line_sf_point**: for equal eastings (`E₁ = E₂ = E`) the line scale factor is the point-scale
+series `k₀(1 + E²/(2r²) + E⁴/(24r⁴))` at the mean latitude -/
+theorem line_sf_point (zone east north1 north2 : ℝ) (hemi : String) (ell : Ellipsoid)
+    (prj : Projection) (g1 g2 : Geo)
+    (h1 : grid2geo zone east north1 hemi ell utm = .ok g1)
+    (h2 : grid2geo zone east north2 hemi ell utm = .ok g2)
+    (hr : rSq ((g1.1 + g2.1) / 2) ell prj ≠ 0) :
+    line_sf zone east north1 zone east north2 hemi ell prj
+      = .ok (prj.cmscale * (1 + (east - prj.falseeast) ^ 2 / (2 * rSq ((g1.1 + g2.1) / 2) ell prj)
+          + (east - prj.falseeast) ^ 4 / (24 * rSq ((g1.1 + g2.1) / 2) ell prj ^ 2))) := by
+  rw [line_sf_ok _ _ _ _ _ _ _ _ g1 g2 h1 h2, lsfCore_point _ _ _ hr]
+
+example : ∃ (ell : Ellipsoid) (prj : Projection), 0 < ell.semimaj ∧ 0 ≤ ell.ecc1sq ∧
+    ell.ecc1sq < 1 ∧ 0 < prj.cmscale := ⟨grs80, utm, grs80_utm_ok⟩
+
+/-- `radiations` with rotation `0` and scale `1`, as used for the first estimate of point 2 -/
+theorem radiations_def (east1 north1 brg dist rot psf : ℝ) :
+    radiations east1 north1 brg dist rot psf
+      = (east1 + dist * psf * Real.sin ((brg + rot) * (Real.pi / 180)),
+         north1 + dist * psf * Real.cos ((brg + rot) * (Real.pi / 180))) := rfl
+
+/-! ## 4. `vincdir_utm`: the loop and its exit -/
+
+/-- `k`-fold iterate of a raising body -/
+def iterE {σ : Type} (body : σ → Except PyErr σ) : ℕ → σ → Except PyErr σ
+  | 0, s => .ok s
+  | k + 1, s => Except.bind (body s) (iterE body k)
+
+theorem iterE_succ_last {σ : Type} (body : σ → Except PyErr σ) :
+    ∀ (k : ℕ) (s₀ sp s : σ), iterE body k s₀ = .ok sp → body sp = .ok s →
+      iterE body (k + 1) s₀ = .ok s := by
+  intro k
+  induction k with
+  | zero =>
+    intro s₀ sp s h hb
+    obtain rfl := Except.ok.inj h
+    show Except.bind (body s₀) (iterE body 0) = _
+    rw [hb]; rfl
+  | succ k ih =>
+    intro s₀ sp s h hb
+    obtain ⟨s', hs', h'⟩ := (bind_ok_iff _ _ _).1 h
+    show Except.bind (body s₀) (iterE body (k + 1)) = _
+    rw [hs']
+    exact ih s' sp s h' hb
+
+/-- normal exit of `whileLoopE`: the condition is false at the final state, which is a `k`-fold
+iterate of the body (`k ≤ fuel`) -/
+theorem whileLoopE_ok {σ : Type} (cond : σ → Bool) (body : σ → Except PyErr σ) :
+    ∀ (fuel : ℕ) (s₀ s : σ), whileLoopE fuel cond body s₀ = .ok s →
+      cond s = false ∧ ∃ k, k ≤ fuel ∧ iterE body k s₀ = .ok s := by
+  intro fuel
+  induction fuel with
+  | zero =>
+    intro s₀ s h
+    simp only [whileLoopE] at h
+    split at h
+    · cases h
+    · rename_i hc
+      obtain rfl := Except.ok.inj h
+      exact ⟨by simpa using hc, 0, Nat.le_refl 0, rfl⟩
+  | succ n ih =>
+    intro s₀ s h
+    simp only [whileLoopE] at h
+    split at h
+    · cases hb : body s₀ with
+      | error e => rw [hb] at h; cases h
+      | ok s' =>
+        rw [hb] at h
+        obtain ⟨h1, k, hk, hs⟩ := ih s' s h
+        refine ⟨h1, k + 1, Nat.succ_le_succ hk, ?_⟩
+        show Except.bind (body s₀) (iterE body k) = _
+        rw [hb]; exact hs
+    · rename_i hc
+      obtain rfl := Except.ok.inj h
+      exact ⟨by simpa using hc, 0, Nat.zero_le _, rfl⟩
+
+theorem whileLoopE_of_false {σ : Type} (cond : σ → Bool) (body : σ → Except PyErr σ) (fuel : ℕ)
+    (s : σ) (hc : cond s = false) : whileLoopE fuel cond body s = .ok s := by
+  cases fuel <;> simp [whileLoopE, hc]
+
+/-- if the loop is entered (`cond s₀`) and exits normally, the final state is `body sp` for a state
+`sp` reached after `k < fuel` passes at which the condition still held -/
+theorem whileLoopE_last {σ : Type} (cond : σ → Bool) (body : σ → Except PyErr σ) :
+    ∀ (fuel : ℕ) (s₀ s : σ), cond s₀ = true → whileLoopE fuel cond body s₀ = .ok s →
+      ∃ k, k < fuel ∧ ∃ sp, iterE body k s₀ = .ok sp ∧ cond sp = true ∧ body sp = .ok s ∧
+        cond s = false := by
+  intro fuel
+  induction fuel with
+  | zero =>
+    intro s₀ s hc h
+    simp [whileLoopE, hc] at h
+  | succ n ih =>
+    intro s₀ s hc h
+    simp only [whileLoopE, hc, if_true] at h
+    cases hb : body s₀ with
+    | error e => rw [hb] at h; cases h
+    | ok s' =>
+      rw [hb] at h
+      replace h : whileLoopE n cond body s' = .ok s := h
+      cases hc' : cond s' with
+      | false =>
+        rw [whileLoopE_of_false cond body n s' hc'] at h
+        obtain rfl := Except.ok.inj h
+        exact ⟨0, Nat.succ_pos n, s₀, rfl, hc, hb, hc'⟩
+      | true =>
+        obtain ⟨k, hk, sp, h1, h2, h3, h4⟩ := ih s' s hc' h
+        refine ⟨k + 1, Nat.succ_lt_succ hk, sp, ?_, h2, h3, h4⟩
+        show Except.bind (body s₀) (iterE body k) = _
+        rw [hb]; exact h1
+
+/-- the loop is always entered: `lsf_diff` starts at `1 > 1e-9` (so the seeds `0` the model gives
+`az2to1` and `gridconv2` are never returned) -/
+theorem dirCond_init (a b c d e f : ℝ) : dirCond (a, b, c, d, e, f, (1 : ℝ)) = true := by
+  simp only [dirCond, St.diff, dec_def]
+  norm_num
+
+theorem dirCond_false_iff (s : St) : dirCond s = false ↔ s.diff ≤ 1 / 10 ^ 9 := by
+  simp only [dirCond, dec_def, decide_eq_false_iff_not, not_lt, gt_iff_lt]
+  norm_num
+
+/-- one pass of the loop body, spelled out -/
+theorem dirBody_ok_iff (zone1 east1 north1 grid_dist : ℝ) (hemi : String) (ell : Ellipsoid)
+    (lat1 lon1 az1to2 : ℝ) (sp s : St) :
+    dirBody zone1 east1 north1 grid_dist hemi ell lat1 lon1 az1to2 sp = .ok s ↔
+    ∃ (gg : Grid) (lsf : ℝ),
+      geo2grid (vincdir lat1 lon1 az1to2 (grid_dist / sp.lsf) ell).1
+        (vincdir lat1 lon1 az1to2 (grid_dist / sp.lsf) ell).2.1 zone1 ell utm = .ok gg ∧
+      line_sf zone1 east1 north1 gg.2.1 gg.2.2.1 gg.2.2.2.1 hemi ell utm = .ok lsf ∧
+      s = ((vincdir lat1 lon1 az1to2 (grid_dist / sp.lsf) ell).2.2, gg.2.1, gg.2.2.1, gg.2.2.2.1,
+            gg.2.2.2.2.2, lsf, |sp.lsf - lsf|) := by
+  unfold dirBody
+  constructor
+  · intro h
+    obtain ⟨gg, h1, h⟩ := (bind_ok_iff _ _ _).1 h
+    obtain ⟨lsf, h2, h⟩ := (bind_ok_iff _ _ _).1 h
+    exact ⟨gg, lsf, h1, h2, (Except.ok.inj h).symm⟩
+  · rintro ⟨gg, lsf, h1, h2, rfl⟩
+    refine (bind_ok_iff _ _ _).2 ⟨gg, h1, ?_⟩
+    exact (bind_ok_iff _ _ _).2 ⟨lsf, h2, rfl⟩
+
+/-- **vincdir_utm_exit**. On a normal return `r = (zone2, east2, north2, grid2to1, lsf)`:
+* point 1 was converted with the call's hemisphere and ellipsoid (`g1`), `az1to2 = grid1to2 − conv₁`;
+* the initial estimate `lsf0` is `line_sf` to the plane radiation point with the DEFAULT
+  `"south"`/`grs80` (the one call that does not receive the outer arguments);
+* the loop ran `k + 1` passes (`k < 100`); `sp` is the state before the last pass, reached by `k`
+  passes from the initial state, and the condition still held there;
+* the last pass: `v = vincdir(φ₁, λ₁, az1to2, grid_dist / lsf_{k−1})` with the call's ellipsoid,
+  `gg = geo2grid(v.lat, v.lon, zone1)` with the call's ellipsoid, `lsf = line_sf(pt1, gg)` with the
+  call's hemisphere and ellipsoid, and `|lsf_{k−1} − lsf| ≤ 1e-9`;
+* the returned point is `gg`'s zone/easting/northing, the returned scale factor is `lsf`, and
+  `grid2to1 = az2to1 + gridconv2` with `az2to1 = v.3` and `gridconv2` the 4th component of
+  `grid2geo zone2 east2 north2 hemisphere ell utm`. -/
+theorem vincdir_utm_exit (zone1 east1 north1 grid1to2 grid_dist : ℝ) (hemi : String)
+    (ell : Ellipsoid) (r : ℝ × ℝ × ℝ × ℝ × ℝ)
+    (h : vincdir_utm zone1 east1 north1 grid1to2 grid_dist hemi ell = .ok r) :
+    ∃ (g1 : Geo) (lsf0 : ℝ) (k : ℕ) (sp : St) (gg : Grid) (lsf : ℝ) (g2 : Geo),
+      grid2geo zone1 east1 north1 hemi ell utm = .ok g1 ∧
+      line_sf zone1 east1 north1 zone1
+        (radiations east1 north1 grid1to2 grid_dist 0 1).1
+        (radiations east1 north1 grid1to2 grid_dist 0 1).2 "south" grs80 utm = .ok lsf0 ∧
+      k < 100 ∧
+      iterE (dirBody zone1 east1 north1 grid_dist hemi ell g1.1 g1.2.1 (grid1to2 - g1.2.2.2)) k
+        ((0 : ℝ), zone1, (radiations east1 north1 grid1to2 grid_dist 0 1).1,
+          (radiations east1 north1 grid1to2 grid_dist 0 1).2, (0 : ℝ), lsf0, (1 : ℝ)) = .ok sp ∧
+      sp.diff > 1 / 10 ^ 9 ∧
+      geo2grid (vincdir g1.1 g1.2.1 (grid1to2 - g1.2.2.2) (grid_dist / sp.lsf) ell).1
+        (vincdir g1.1 g1.2.1 (grid1to2 - g1.2.2.2) (grid_dist / sp.lsf) ell).2.1 zone1 ell utm
+          = .ok gg ∧
+      line_sf zone1 east1 north1 gg.2.1 gg.2.2.1 gg.2.2.2.1 hemi ell utm = .ok lsf ∧
+      |sp.lsf - lsf| ≤ 1 / 10 ^ 9 ∧
+      grid2geo gg.2.1 gg.2.2.1 gg.2.2.2.1 hemi ell utm = .ok g2 ∧
+      r = (gg.2.1, gg.2.2.1, gg.2.2.2.1,
+            (vincdir g1.1 g1.2.1 (grid1to2 - g1.2.2.2) (grid_dist / sp.lsf) ell).2.2 + g2.2.2.2,
+            lsf) := by
+  rw [vincdir_utm_structure] at h
+  unfold gridDirectWith at h
+  obtain ⟨g1, hg1, h⟩ := (bind_ok_iff _ _ _).1 h
+  obtain ⟨lsf0, hl0, h⟩ := (bind_ok_iff _ _ _).1 h
+  obtain ⟨s, hloop, h⟩ := (bind_ok_iff _ _ _).1 h
+  obtain ⟨g2, hg2, h⟩ := (bind_ok_iff _ _ _).1 h
+  obtain ⟨k, hk, sp, hit, hcp, hbody, hcs⟩ :=
+    whileLoopE_last _ _ 100 _ s (dirCond_init _ _ _ _ _ _) hloop
+  obtain ⟨gg, lsf, hgg, hlsf, rfl⟩ := (dirBody_ok_iff _ _ _ _ _ _ _ _ _ _ _).1 hbody
+  refine ⟨g1, lsf0, k, sp, gg, lsf, g2, hg1, hl0, hk, hit, ?_, hgg, hlsf, ?_, hg2, ?_⟩
+  · have : dirCond sp ≠ false := by rw [hcp]; exact Bool.noConfusion
+    rw [Ne, dirCond_false_iff, not_le] at this
+    exact this
+  · exact (dirCond_false_iff _).1 hcs
+  · exact (Except.ok.inj h).symm
+
+/-- the final state is the `(k+1)`-fold iterate of the body (form of `whileLoopE_ok`) -/
+theorem vincdir_utm_loop_state (zone1 east1 north1 grid_dist : ℝ) (hemi : String) (ell : Ellipsoid)
+    (lat1 lon1 az1to2 : ℝ) (s₀ s : St)
+    (h : whileLoopE 100 dirCond (dirBody zone1 east1 north1 grid_dist hemi ell lat1 lon1 az1to2) s₀
+      = .ok s) :
+    s.diff ≤ 1 / 10 ^ 9 ∧ ∃ k, k ≤ 100 ∧
+      iterE (dirBody zone1 east1 north1 grid_dist hemi ell lat1 lon1 az1to2) k s₀ = .ok s := by
+  obtain ⟨h1, h2⟩ := whileLoopE_ok _ _ _ _ _ h
+  exact ⟨(dirCond_false_iff _).1 h1, h2⟩
+
+/-! ## 5. Which call receives which hemisphere / ellipsoid -/
+
+/-- **arguments_threaded**.
+(1) `vincinv_utm`: both `grid2geo` calls, `vincinv` and `line_sf` receive the outer `hemisphere`
+    (where they have one) and `ellipsoid` — `Spec.gridInverse`.
+(2) `line_sf`: every `grid2geo`/`geo2grid` call and `rho`, `nu` receive the outer `hemisphere` /
+    `ellipsoid`; the projection of those calls is the default `utm`, the `projection` argument only
+    supplies `falseeast` and `cmscale` — `Spec.lineSf`.
+(3) `vincdir_utm`: the initial `grid2geo`, every call in the loop body (`vincdir`, `geo2grid`,
+    `line_sf`) and the final `grid2geo` receive the outer values, EXCEPT the initial scale-factor
+    estimate before the loop, which is `line_sf … "south" grs80 utm` whatever the outer arguments are
+    — `Spec.gridDirectWith "south" grs80`, in which the two defaults are the first two arguments. -/
+theorem arguments_threaded :
+    (∀ (zone1 east1 north1 zone2 east2 north2 : ℝ) (hemi : String) (ell : Ellipsoid),
+      vincinv_utm zone1 east1 north1 zone2 east2 north2 hemi ell = (do
+        let pt1 ← grid2geo zone1 east1 north1 hemi ell utm
+        let pt2 ← grid2geo zone2 east2 north2 hemi ell utm
+        let inv := vincinv pt1.1 pt1.2.1 pt2.1 pt2.2.1 ell
+        let lsf ← line_sf zone1 east1 north1 zone2 east2 north2 hemi ell utm
+        pure (inv.1 * lsf, inv.2.1 + pt1.2.2.2, inv.2.2 + pt2.2.2.2, lsf))) ∧
+    (∀ (zone1 east1 north1 zone2 east2 north2 : ℝ) (hemi : String) (ell : Ellipsoid)
+        (prj : Projection),
+      line_sf zone1 east1 north1 zone2 east2 north2 hemi ell prj = (do
+        let s2 ← (if ¬ (zone1 = zone2) then (do
+                    let g ← grid2geo zone2 east2 north2 hemi ell utm
+                    let t ← geo2grid g.1 g.2.1 zone1 ell utm
+                    pure (t.2.1, t.2.2.1, t.2.2.2.1))
+                  else pure (zone2, east2, north2))
+        let g1 ← grid2geo zone1 east1 north1 hemi ell utm
+        let g2 ← grid2geo s2.1 s2.2.1 s2.2.2 hemi ell utm
+        pure (lsfCore prj.cmscale
+          (rho ((g1.1 + g2.1) / 2) ell * nu ((g1.1 + g2.1) / 2) ell * prj.cmscale ^ 2)
+          (east1 - prj.falseeast) (s2.2.1 - prj.falseeast)))) ∧
+    (∀ (zone1 east1 north1 grid1to2 grid_dist : ℝ) (hemi : String) (ell : Ellipsoid),
+      vincdir_utm zone1 east1 north1 grid1to2 grid_dist hemi ell = (do
+        let g1 ← grid2geo zone1 east1 north1 hemi ell utm
+        let r := radiations east1 north1 grid1to2 grid_dist 0 1
+        -- the exception: defaults, not `hemi`/`ell`
+        let lsf0 ← line_sf zone1 east1 north1 zone1 r.1 r.2 "south" grs80 utm
+        let s ← whileLoopE 100 (fun s : St => decide (s.diff > dec 1 9))
+          (fun s : St => do
+            let v := vincdir g1.1 g1.2.1 (grid1to2 - g1.2.2.2) (grid_dist / s.lsf) ell
+            let g ← geo2grid v.1 v.2.1 zone1 ell utm
+            let lsf ← line_sf zone1 east1 north1 g.2.1 g.2.2.1 g.2.2.2.1 hemi ell utm
+            pure (v.2.2, g.2.1, g.2.2.1, g.2.2.2.1, g.2.2.2.2.2, lsf, |s.lsf - lsf|))
+          ((0 : ℝ), zone1, r.1, r.2, (0 : ℝ), lsf0, (1 : ℝ))
+        let g2 ← grid2geo s.zone s.east s.north hemi ell utm
+        pure (s.zone, s.east, s.north, s.az2to1 + g2.2.2.2, s.lsf))) := by
+  refine ⟨?_, ?_, ?_⟩
+  · intros; rw [vincinv_utm_def]; rfl
+  · intros; rw [line_sf_def]; rfl
+  · intros; rw [vincdir_utm_structure]; rfl
+
 end
 
 end GeodeVerif.C14
+
+#print axioms GeodeVerif.C14.vincinv_utm_def
+#print axioms GeodeVerif.C14.line_sf_formula
+#print axioms GeodeVerif.C14.line_sf_symmetric
+#print axioms GeodeVerif.C14.line_sf_ge_k0
+#print axioms GeodeVerif.C14.line_sf_point
+#print axioms GeodeVerif.C14.rho_nu_def
+#print axioms GeodeVerif.C14.cross_zone
+#print axioms GeodeVerif.C14.vincdir_utm_structure
+#print axioms GeodeVerif.C14.whileLoopE_ok
+#print axioms GeodeVerif.C14.vincdir_utm_exit
+#print axioms GeodeVerif.C14.arguments_threaded
